@@ -1,5 +1,6 @@
 (* C16 driver.  Strings are hex ("-" = empty); fields of one op are separated by ':' , morsels by '+',
    morsel fields by '/'.
+     (instants -- t0, T:<dt>, expires v<int> -- are in ticks of 1/8 s; maxage v<int> is in seconds)
      H <unsafe01> <t0> <op> <op> ...      -> one answer per OFilter, joined by '|':
                                               J=<n~v,n~v,...>;R=<n~v,...>   (jar dict / RFC reference set, sorted)
      HD <unsafe01> <t0> <op> ...           -> same, followed by " # " and a dump of the final jar
